@@ -265,7 +265,7 @@ pub fn conv_werr(e: &TagWriterError) -> WErrV {
         TagWriterError::TagIdError(id) => WErrV::TagId(*id),
         TagWriterError::TagSizeError(m) => WErrV::TagSize(m.clone()),
         TagWriterError::UnexpectedClosingTag { tag_id, expected_id } => WErrV::UnexpectedClosing { id: *tag_id, expected: *expected_id },
-        TagWriterError::WriteError { source } => WErrV::Write { kind: format!("{:?}", source.kind()) },
+        TagWriterError::WriteError { source } => WErrV::Write { kind: format!("{:?}", source.kind()), token: crate::io::error_token(source) },
     }
 }
 
@@ -630,6 +630,10 @@ pub struct WTrace {
     pub partial_writes: usize,
     pub write_calls: usize,
     pub flushes: usize,
+    /// injected sink failures that were actually returned, and how many of them had happened after each op
+    pub failures: Vec<crate::io::WFailure>,
+    pub failures_after: Vec<usize>,
+    pub interrupted: usize,
 }
 
 impl WTrace {
@@ -644,6 +648,7 @@ pub fn run_writer_t<T: Spec>(ops: &[WOp], wscript: &WScript, finish: bool) -> WT
     let mut w = TagWriter::new(sink);
     let mut results = Vec::new();
     let mut delivered_after = Vec::new();
+    let mut failures_after = Vec::new();
     let mut panic = None;
     for op in ops {
         let r = guarded((|| match op {
@@ -668,35 +673,33 @@ pub fn run_writer_t<T: Spec>(ops: &[WOp], wscript: &WScript, finish: bool) -> WT
             }
         }
         delivered_after.push(w.get_ref().out.len());
+        failures_after.push(w.get_ref().failures.len());
     }
     let mut into_inner = None;
-    let sink = if panic.is_none() && finish {
-        // `into_inner` consumes the writer; on failure the sink is lost with it, so take a look first
-        let r = guarded((|| w.flush()));
-        match r {
-            Ok(Ok(())) => into_inner = Some(Ok(())),
-            Ok(Err(e)) => into_inner = Some(Err(conv_werr(&e))),
-            Err(p) => panic = Some(panic_msg(p)),
-        }
-        if matches!(into_inner, Some(Ok(()))) {
-            // flush() is what into_inner() runs first; calling into_inner() now returns the sink
-            match guarded(move || w.into_inner()) {
-                Ok(Ok(s)) => Some(s),
-                Ok(Err(_)) | Err(_) => None,
+    let sink: Option<crate::io::SinkState> = if panic.is_none() && finish {
+        // `into_inner` consumes the writer; when it fails the sink is dropped with it, and the sink leaves
+        // its state behind when dropped (io::take_dropped_sink)
+        match guarded(move || w.into_inner()) {
+            Ok(Ok(mut s)) => {
+                into_inner = Some(Ok(()));
+                Some(s.take_state())
             }
-        } else {
-            // into_inner() would fail the same way and drop the sink with the writer: look at what
-            // the sink holds instead
-            Some(std::mem::replace(w.get_mut(), SimWriter::new(WScript::default())))
+            Ok(Err(e)) => {
+                into_inner = Some(Err(conv_werr(&e)));
+                crate::io::take_dropped_sink()
+            }
+            Err(p) => {
+                panic = Some(panic_msg(p));
+                crate::io::take_dropped_sink()
+            }
         }
     } else {
         // peek without finishing
-        let s = std::mem::replace(w.get_mut(), SimWriter::new(WScript::default()));
-        Some(s)
+        Some(w.get_mut().take_state())
     };
     match sink {
-        Some(s) => WTrace { results, panic, delivered_after, into_inner, out: s.out, snapshots: s.snapshots, partial_writes: s.partial_writes, write_calls: s.write_calls, flushes: s.flushes },
-        None => WTrace { results, panic, delivered_after, into_inner, out: Vec::new(), snapshots: Vec::new(), partial_writes: 0, write_calls: 0, flushes: 0 },
+        Some(s) => WTrace { results, panic, delivered_after, into_inner, out: s.out, snapshots: s.snapshots, partial_writes: s.partial_writes, write_calls: s.write_calls, flushes: s.flushes, failures: s.failures, failures_after, interrupted: s.interrupted },
+        None => WTrace { results, panic, delivered_after, into_inner, out: Vec::new(), snapshots: Vec::new(), partial_writes: 0, write_calls: 0, flushes: 0, failures: Vec::new(), failures_after, interrupted: 0 },
     }
 }
 
